@@ -384,6 +384,7 @@ func c18Provenance(c *Ctx) {
 		return s.Recv() == nil && s.Params().Len() == 1 && s.Results().Len() == 1 && s.Params().At(0).Type().String() == "string" && s.Results().At(0).Type().String() == "bool"
 	}
 	n := 0
+	members := cssMembers(c)
 	for _, fn := range moduleFuncs(c.P) {
 		if !isHandler(fn) || fn.Name() == "BaseHandler" {
 			continue
@@ -468,6 +469,9 @@ func c18Provenance(c *Ctx) {
 				cal := cl.Common().StaticCallee()
 				nm := pa.CalleeName(cal)
 				isAcc := nm == "(*regexp.Regexp).MatchString" || nm == "css.in" || nm == "css.recursiveCheck" || isHandler(cal)
+				if m := members[cal.Name()]; m != nil && m.fn == cal && m.verified {
+					isAcc = true
+				}
 				if !isAcc {
 					continue
 				}
